@@ -1580,6 +1580,15 @@ func (d *DotGit) PackRefs() (err error) {
 	if err = d.addRefsFromRefDir(&refs, seen); err != nil {
 		return err
 	}
+	// packed-refs can only hold direct references: symbolic
+	// references stay loose.
+	direct := refs[:0]
+	for _, ref := range refs {
+		if ref.Type() == plumbing.HashReference {
+			direct = append(direct, ref)
+		}
+	}
+	refs = direct
 	if len(refs) == 0 {
 		// Nothing to do!
 		return nil
